@@ -185,10 +185,19 @@ def gen_case(rng):
     if rng.random() < 0.3:
         defs.append([rng.choice(PMACS), ["P", rng.random() < 0.5, rng.choice(names)]])
     incs = [rng.choice(names) for _ in range(rng.choice([0, 0, 0, 1, 1, 2]))]
-    return [sorted(files.values(), key=lambda f: f[0]), [main, dirs, defs, incs]]
+    entry = [main, dirs, defs, incs]
+    if dirs and rng.random() < 0.45:
+        # the directories are given on a command line as -I / -isystem (1 = -isystem) and go
+        # through config.ArgumentParser.parse_args
+        entry.append([1 if rng.random() < 0.5 else 0 for _ in dirs])
+    return [sorted(files.values(), key=lambda f: f[0]), entry]
 
 
 CORPUS_EXTRA = [
+    # -isystem before -I on the command line: a compiler still searches the -I directory first
+    [[[["inc1", "h.h"], [["Def", "FROM_I", "E"]]], [["inc2", "h.h"], [["Def", "FROM_SYS", "E"]]],
+      [["src", "a.c"], [["Inc", ["A", ["h.h"]]], ["If", ["Defd", "FROM_I"]], ["Code"], ["Endif"]]]],
+     [["src", "a.c"], [["inc2"], ["inc1"]], [], [], [1, 0]]],
     # a #pragma once header reached through two spellings is processed once (its second pass would differ)
     [[[["common", "once.h"], [["Once"], ["If", ["Defd", "SEEN"]], ["Code"], ["Endif"], ["Def", "SEEN", "E"]]],
       [["src", "a.c"], [["Inc", ["Q", ["..", "common", "once.h"]]], ["Inc", ["Q", ["..", "common", ".", "once.h"]]],
@@ -260,7 +269,8 @@ class C04(Check):
         files, entry = case
         root = common.scratch() / "c04"
         shapes = self.materialise(case, root)
-        main, dirs, defs, incs = entry
+        main, dirs, defs, incs = entry[:4]
+        kinds = entry[4] if len(entry) > 4 else None
         defines = []
         for m, v in defs:
             if v == "E":
@@ -292,8 +302,16 @@ class C04(Check):
         lg.propagate = False
         try:
             cb = codebasin.CodeBase(root)
+            ipaths = [str(root.joinpath(*d)) for d in dirs]
+            if kinds is not None:
+                from codebasin import config as cbconfig
+                argv = []
+                for i, (d, k) in enumerate(zip(ipaths, kinds)):
+                    flag = "-isystem" if k else "-I"
+                    argv += [flag, d] if (k or i % 2) else [flag + d]
+                ipaths = cbconfig.ArgumentParser("cc").parse_args(argv + ["-c", "a.c"])[0].include_paths
             cfg = {"P": [{"file": str(root.joinpath(*main)), "defines": defines,
-                          "include_paths": [str(root.joinpath(*d)) for d in dirs],
+                          "include_paths": ipaths,
                           "include_files": [pstr(n) for n in incs]}]}
             try:
                 state = finder.find(str(root), cb, cfg)
@@ -368,7 +386,7 @@ class C04(Check):
         if not all(balanced(ls) for _, ls in files):
             return False
         # a missing forced include is diagnosed by gcc
-        main, dirs, defs, incs = entry
+        main, dirs, defs, incs = entry[:4]
         present = {pstr(p) for p, _ in files}
         for n in incs:
             cands = [main[:-1] + n] + [d + n for d in dirs]
@@ -410,11 +428,19 @@ class C04(Check):
                         files = trial
                         progress = True
                         break
-        main, dirs, defs, incs = entry
-        dirs = common.shrink_list(dirs, lambda d: still_fails([files, [main, d, defs, incs]]))
-        defs = common.shrink_list(defs, lambda d: still_fails([files, [main, dirs, d, incs]]))
-        incs = common.shrink_list(incs, lambda d: still_fails([files, [main, dirs, defs, d]]))
-        return [files, [main, dirs, defs, incs]]
+        main, dirs, defs, incs = entry[:4]
+        if len(entry) > 4:
+            # shrink (directory, kind) pairs together
+            pairs = common.shrink_list(list(zip(dirs, entry[4])),
+                                       lambda dk: still_fails([files, [main, [d for d, _ in dk], defs, incs, [k for _, k in dk]]]))
+            dirs, kinds = [d for d, _ in pairs], [k for _, k in pairs]
+            tail = lambda: [kinds]
+        else:
+            dirs = common.shrink_list(dirs, lambda d: still_fails([files, [main, d, defs, incs]]))
+            tail = lambda: []
+        defs = common.shrink_list(defs, lambda d: still_fails([files, [main, dirs, d, incs] + tail()]))
+        incs = common.shrink_list(incs, lambda d: still_fails([files, [main, dirs, defs, d] + tail()]))
+        return [files, [main, dirs, defs, incs] + tail()]
 
     # ---- S versus gcc -E ----
     def self_tests(self):
@@ -428,7 +454,8 @@ class C04(Check):
         for c, a in zip(cases, answers):
             sa = self.spec(c, a)
             files, entry = c
-            main, dirs, defs, incs = entry
+            main, dirs, defs, incs = entry[:4]
+            kinds = entry[4] if len(entry) > 4 else [0] * len(dirs)
             self.materialise(c, root)
             # unique tokens per (file, node) so that survival identifies the copy that was read
             for p, ls in files:
@@ -437,8 +464,8 @@ class C04(Check):
                 text = text.replace("int tok_", f"int {tag}_tok_")
                 root.joinpath(*p).write_text(text)
             args = ["gcc", "-E", "-P", "-undef", "-nostdinc"]
-            for d in dirs:
-                args += ["-I", str(root.joinpath(*d))]
+            for d, k in zip(dirs, kinds):
+                args += ["-isystem" if k else "-I", str(root.joinpath(*d))]
             for m, v in defs:
                 if v == "E":
                     args.append(f"-D{m}=")
